@@ -749,6 +749,8 @@ def gen_dom_case(rng: random.Random) -> Dict[str, Any]:
                 if key == (g["name"], json.dumps(options[g["opt"]]["group"], sort_keys=True)) and \
                         (f["dom"] is None or g["dom"] is None or f["dom"] == g["dom"]):
                     clash = True       # Features([...]) compares them (Feature.__eq__ / Domain.__eq__ with None): outside the model
+            if {f["name"]} | {feats[c]["name"] for c in chosen} >= {"t2", "t3"}:
+                clash = True           # one step of DX fed by two roots: needs a Link (join planning is outside the model)
             if clash:
                 continue
             chosen.append(i)
@@ -835,6 +837,9 @@ class Pool:
         from mloda.user import Feature, Options, Link, JoinSpec, GlobalFilter
         from mloda.core.abstract_plugins.components.link import JoinType
         from mloda.core.abstract_plugins.components.data_types import DataType
+        from harness.universe import cfw_class
+        for n in CFW_IDS:         # Feature(compute_framework="...") resolves the name among the LOADED framework classes
+            cfw_class(n)
         names = [g["name"] for g in case["spec"]["groups"]]
 
         def mk_link(l: Dict[str, Any]) -> Any:
@@ -1268,7 +1273,7 @@ def part_b(rep: vlib.Reporter, tier: str, rng: random.Random, modes: bool = Fals
     """modes = True: family B-modes -- the run_all calls of a sequence draw their execution mode (gen_args_case_modes).
     dom = True: family B-dom -- the universe with domains (gen_dom_case), one GlobalFilter re-used across domains."""
     big = tier == "thorough"
-    n = (300 if big else 20) if modes else (2500 if big else 150) if dom else (1000 if big else 70)
+    n = (300 if big else 20) if modes else (1500 if big else 150) if dom else (1000 if big else 70)
     t0 = time.time()
     recs = []
     dist: Dict[str, Any] = {"sequences": 0, "calls": 0, "copy_false_calls": 0, "outcomes": {}, "shared_differs_from_fresh": 0, "shared_differs_from_fresh_after_copy_only": 0,
@@ -1401,11 +1406,12 @@ class NestUniverse:
     """Root group (column "s", any compute framework) and two dependent groups whose input features are the Feature objects
     given in their options: "sc" = factor * <input>, "sc2" = factor2 * <input>."""
 
-    def __init__(self) -> None:
+    def __init__(self, domain: Optional[str] = None) -> None:
         from mloda.provider import FeatureGroup, DataCreator
         from harness.universe import native_table, column_values, with_columns
         _nest_counter[0] += 1
         tag = f"N{_nest_counter[0]}"
+        self.domain = domain
 
         def root_input_data(cls: Any) -> Any:
             return DataCreator({"s"})
@@ -1432,6 +1438,12 @@ class NestUniverse:
                                                             "input_features": input_features, "calculate_feature": classmethod(calc)})
         self.sc = mk_dep("sc", "factor")
         self.sc2 = mk_dep("sc2", "factor2")
+        if domain:
+            # all three groups live in one domain: a requested feature WITH that domain hands it down to its input features
+            # (Features.build_feature_collection writes feature.domain of the nested Feature objects)
+            from mloda.user import Domain
+            for c in (self.root, self.sc, self.sc2):
+                c.get_domain = classmethod(lambda k, _d=domain: Domain(_d))  # type: ignore[attr-defined]
 
     def collector(self) -> Any:
         from mloda.user import PluginCollector
@@ -1474,7 +1486,11 @@ def gen_nest_case(rng: random.Random, deep_frozenset: bool = False) -> Dict[str,
         # two levels of frozenset-nested features take 20-40 s per call in mloda itself (deepcopy of a frozenset hashes
         # its Feature elements, Feature.__hash__ deep-copies child_options, ... until RecursionError): thorough tier only
         container = rng.choice(["single", "list"])
-    return {"levels": levels, "container": container,
+    domain = rng.choice([None, None, "nest_domain"])
+    if domain:
+        for c in calls:
+            c["dom"] = rng.random() < 0.7          # this call's requested feature carries the domain
+    return {"levels": levels, "container": container, "domain": domain,
             "in_where": rng.choice(["context", "context", "group"]),
             "uncopyable": rng.choice(["sqlite", "lock", "generator", "sqlite", None]),
             "unc_where": rng.choice(["same", "same", "same", "other"]), "calls": calls}
@@ -1491,7 +1507,7 @@ class NestPool:
             self.mid = Feature("sc", self._opts({"factor": 4}, self.src))
             inner = self.mid
         self.inner = inner
-        self.requested = self.make_requested(2)
+        self.requested = self.make_requested(2, bool(case.get("domain")) and bool(case["calls"][0].get("dom")))
 
     def _container(self, f: Any) -> Any:
         c = self.case["container"]
@@ -1512,11 +1528,12 @@ class NestPool:
             _ = oth
         return Options(group=g, context=c)
 
-    def make_requested(self, factor: int) -> Any:
+    def make_requested(self, factor: int, with_domain: bool = False) -> Any:
         from mloda.user import Feature
+        dom = self.case.get("domain") if with_domain else None
         if self.case["levels"] == 2:
-            return Feature("sc2", self._opts({"factor2": factor}, self.inner))
-        return Feature("sc", self._opts({"factor": factor}, self.inner))
+            return Feature("sc2", self._opts({"factor2": factor}, self.inner), domain=dom)
+        return Feature("sc", self._opts({"factor": factor}, self.inner), domain=dom)
 
     def objects(self) -> Dict[str, Any]:
         return {"requested": self.requested, "mid": self.mid, "src": self.src}
@@ -1539,13 +1556,13 @@ def nest_call(nu: NestUniverse, feats: List[Any], call: Dict[str, Any]) -> Tuple
 
 
 def run_nest_case(case: Dict[str, Any]) -> Dict[str, Any]:
-    nu = NestUniverse()
+    nu = NestUniverse(case.get("domain"))
     pool = NestPool(case)
     ren = Renamer()
     rec: Dict[str, Any] = {"case": case, "problems": [], "outcomes": []}
     for ci, call in enumerate(case["calls"]):
         # the request of this call: the shared requested feature, or a new dependent feature around the SAME nested objects
-        feats = [pool.requested] if call["reuse"] == "all" else [pool.make_requested(call["factor"])]
+        feats = [pool.requested] if call["reuse"] == "all" else [pool.make_requested(call["factor"], bool(call.get("dom")))]
         watched = dict(pool.objects(), this_request=feats[0])
         before = {k: dump(v, ren) for k, v in watched.items()}
         got = nest_call(nu, feats, call)
@@ -1554,7 +1571,7 @@ def run_nest_case(case: Dict[str, Any]) -> Dict[str, Any]:
             rec["problems"].append(f"call {ci} {call}: copy_features=True but the caller's (nested) Feature objects were modified: "
                                    f"{diff_paths(before, after)[:4]}")
         fpool = NestPool(case)
-        ffeats = [fpool.requested] if (call["reuse"] == "all" and call["factor"] == 2) else [fpool.make_requested(call["factor"])]
+        ffeats = [fpool.requested] if (call["reuse"] == "all" and call["factor"] == 2) else [fpool.make_requested(call["factor"], bool(call.get("dom")))]
         fgot = nest_call(nu, ffeats, call)
         rec["outcomes"].append((got[0], fgot[0]))
         if got != fgot:
@@ -1566,7 +1583,8 @@ def run_nest_case(case: Dict[str, Any]) -> Dict[str, Any]:
 def part_c(rep: vlib.Reporter, tier: str, rng: random.Random) -> bool:
     n = 400 if tier == "thorough" else 48
     dist: Dict[str, Any] = {"sequences": 0, "calls": 0, "levels": {}, "container": {}, "uncopyable": {}, "second_call": {},
-                            "outcomes": {}, "uncopyable_next_to_nested_features": 0}
+                            "outcomes": {}, "uncopyable_next_to_nested_features": 0, "sequences_in_a_domain": 0,
+                            "calls_whose_requested_feature_carries_the_domain": 0}
     found = False
     # fixed cases first: every container x {sqlite, lock} x {other framework, other group option}, 1 and 2 levels
     fixed = []
@@ -1588,6 +1606,8 @@ def part_c(rep: vlib.Reporter, tier: str, rng: random.Random) -> bool:
         for key in ("levels", "container", "uncopyable"):
             dist[key][str(case[key])] = dist[key].get(str(case[key]), 0) + 1
         dist["uncopyable_next_to_nested_features"] += int(case["uncopyable"] is not None and case["in_where"] == "context")
+        dist["sequences_in_a_domain"] += int(bool(case.get("domain")))
+        dist["calls_whose_requested_feature_carries_the_domain"] += sum(1 for c in case["calls"] if case.get("domain") and c.get("dom"))
         for c in case["calls"][1:]:
             kk = "nested objects below another dependent feature" if c["reuse"] == "nested" else \
                  ("other framework" if c["cfw"] != case["calls"][0]["cfw"] else "same call again")
